@@ -149,9 +149,11 @@ def objective_block(dm):
     for n in walk_no_nested(dm.node):
         if isinstance(n, ast.If) and isinstance(n.test, ast.Compare) and \
                 is_self_attr(n.test.left, 'obj') and isinstance(n.test.ops[0], ast.IsNot):
+            from .common import expand_locals
             for st in n.body:
+                # (a temporary for the difference -- epigraph = vars[0] - sign*obj -- is read through)
                 if isinstance(st, ast.Assign) and isinstance(st.value, ast.Compare) and \
-                        any(is_self_attr(x, 'obj') for x in ast.walk(st.value)) and \
+                        any(is_self_attr(x, 'obj') for x in ast.walk(expand_locals(dm.node, st.value))) and \
                         isinstance(st.targets[0], ast.Name):
                     return n.body, st.targets[0].id
     return None, None
@@ -305,7 +307,9 @@ def _front_end(repo, res, mod):
     acc = _accepted_classes(repo, st, universe)
     if len(acc) < 5:
         raise AnalysisError('%s accepts only %d classes: extractor blind' % (st.fq, len(acc)))
-    loops = [n for n in walk_no_nested(dm.node) if isinstance(n, ast.For) and _mentions(n.iter, 'self.all_constr')]
+    from .common import expand_locals as _xl
+    loops = [n for n in walk_no_nested(dm.node) if isinstance(n, ast.For) and
+             _mentions(_xl(dm.node, n.iter), 'self.all_constr')]
     if len(loops) != 1:
         raise AnalysisError('%s: expected one loop over self.all_constr, found %d' % (dm.fq, len(loops)))
     loop = loops[0]
